@@ -63,7 +63,7 @@ def run(rep, tier, seed, replay):
         "time is the guarded virtual clock (1 ms per query, 1 s between calls); the limited instances have max_runtime 0.3 s",
         "an invalid handle is the NULL pointer (a destroyed handle is freed memory and not passed again)",
         "persistence is probed by a later call that logs the probe global / a config entry; callback data are checked for every callback invocation",
-        "type 'a' (assembly) and 'c' (SQC, not built) are not exercised; exit__ inside a call is not asserted",
+        "type 'a' (assembly) is exercised by three hand-written histories only (one valid text, two that are not assembly); 'c' (SQC, not built) counts as unknown type; exit__ inside a call is not asserted",
     ]
     if replay:
         cases = [json.load(open(replay))["case"]]
@@ -79,12 +79,18 @@ def run(rep, tier, seed, replay):
         rep.add_tlc(g, "Api_MC generator depth %d" % d)
         hists = [json.loads(p) for p in g.prints]
         hists += random_histories(rng, 500 if tier == "quick" else 10000, 12)
+        for k in ("asmok", "asmbad", "asmrecover"):
+            hists.append([{"op": "create", "i": 1, "limited": False}, {"op": "call", "i": 1, "type": "a", "kind": k}, {"op": "call", "i": 1, "type": "s", "kind": "readg"}])
         cases = [{"id": "h%d" % i, "ops": h} for i, h in enumerate(hists)]
         rep.exhaustive = True
     rep.evaluations = len(cases)
     rep.rule = "every transition of the bounded Api_MC graph (2 instances) as a call history + seeded random histories of 12 calls; distinct by history; non-trivial = >= 2 calls"
     rep.extra["distinct_nontrivial"] = len({json.dumps(c["ops"], sort_keys=True) for c in cases if len(c["ops"]) >= 2})
-    events = vlib.run_driver("api", cases, wdir, kind="rel", timeout_s=15)
+    is_asm = lambda c: any(o.get("type") == "a" for o in c["ops"])
+    events = vlib.run_driver("api", [c for c in cases if not is_asm(c)], wdir, kind="rel", timeout_s=15)
+    if any(is_asm(c) for c in cases):
+        # (a short watchdog: the assembly front end is known to hang, see known_findings.json)
+        events += vlib.run_driver("api", [c for c in cases if is_asm(c)], wdir, kind="rel", timeout_s=4, tag="asm")
     by = vlib.events_by_case(events)
     execs = [(c["id"], [e for e in by.get(c["id"], []) if e["e"] in ("Api", "Crash")]) for c in cases]
     bad, totals, results = vlib.validate_traces("Api_Trace", "Api_Trace.cfg", execs, wdir, "c18")
